@@ -15,6 +15,7 @@ import Fbr.Conc
 import Fbr.Lemmas.ConcInv
 import Fbr.Lemmas.ConcStore
 import Fbr.Lemmas.ConcStep
+import Fbr.Lemmas.ConcCount
 
 namespace Fbr.Thm.C09
 open Fbr.Conc
@@ -129,6 +130,14 @@ theorem final_count {c : Cfg} (hinj : ∀ f g, c.pack f = c.pack g → f = g)
     obtain ⟨t, n, e⟩ := h.pos i o hd hz
     have := no_holder_of_free h hfree t
     rw [e] at this; simp [holds] at this
+
+/-- The ghost is what it claims to be: with threads `0 … n-1` running (all others idle), `incs f`
+    equals the number of completed lookups of `f` recorded in the threads' result lists — so
+    `refcount_eq_ghost` / `final_count` read: stored count = completed lookups − amounts forgotten. -/
+theorem incs_counts_completed_lookups (c : Cfg) (progs : Tid → List Op) (n : Nat)
+    (hn : ∀ t, n ≤ t → progs t = []) (sched : List Tid) (f : HostId) :
+    (reach c progs sched).incs f = doneCount (reach c progs sched) n f :=
+  (cinv_run c (cinv_init progs n hn) sched).cnt f
 
 /-- A forget that does not over-count subtracts exactly its count (the saturating subtraction is
     exact), so for a well-behaved client "amount forgotten" is the sum of the forget counts. -/
